@@ -3,6 +3,11 @@ pub mod c01;
 pub mod c04;
 pub mod c06;
 pub mod c11;
+pub mod c12;
+pub mod c19;
+pub mod rtc_common;
+pub mod c15;
+pub mod c16;
 
 use crate::harness::Check;
 
@@ -12,6 +17,10 @@ pub fn all() -> Vec<Check> {
     v.extend(c04::checks());
     v.extend(c06::checks());
     v.extend(c11::checks());
+    v.extend(c12::checks());
+    v.extend(c19::checks());
+    v.extend(c15::checks());
+    v.extend(c16::checks());
     v
 }
 
